@@ -15,6 +15,11 @@ supports: user signal watches and process watches only on the instance that is t
 one built while there is none), no signal raised from a callback, and every raise is followed at once by an
 iteration of the observer with no descriptor ready.  What happens outside that is probed by corpus/C18/multi_*.ops.
 
+About a quarter of the single-instance histories run in the self-pipe configuration (`new Cnn fb`: the default hooks
+without their signal members, so that tickit.c's sigaction + self-pipe fallback is used).  Signals are not blocked
+there; the interesting arrivals are those *during dispatch*: signal callbacks raise the signal being dispatched,
+another watched one, or cancel watchers (themselves, the next, the previous one).
+
 --tier exhaustive enumerates every history of a small scope (see `exhaustive()`).
 Prints one JSON line with the distribution actually produced.
 """
@@ -40,9 +45,10 @@ lines = []
 class Hist:
     """One history under construction; tracks what the generator believes about it."""
 
-    def __init__(self, focus):
+    def __init__(self, focus, fb=False):
         self.focus = focus
-        self.ops = ["new " + a.prop]
+        self.fb = fb
+        self.ops = ["new " + a.prop + (" fb" if fb else "")]
         self.next_slot = 0
         self.clock = T0
         self.reg = {}            # slot -> kind, for every slot that may get registered
@@ -106,6 +112,12 @@ class Hist:
         n = rng.choice([1, 1, 2, 2, 3])
         for _ in range(n):
             c = rng.random()
+            if self.fb and kind == "signal" and self.watched_sigs and rng.random() < 0.35:
+                # arrival while signal callbacks run (self-pipe configuration: the handler runs at once)
+                s = rng.choice(sorted(self.watched_sigs))
+                stats["fb_act_raise_in_signal_cb"] += 1
+                acts.append(f"R,{s}")
+                continue
             if c < 0.40 and self.depth_budget > 0:
                 self.depth_budget -= 1
                 acts.append(self.gen_reg_action(depth + 1, behs))
@@ -387,7 +399,12 @@ def multi_history(focus):
 def random_history(focus):
     if rng.random() < 0.2:
         return multi_history(focus)
-    h = Hist(focus)
+    fb = rng.random() < 0.25
+    h = Hist(focus, fb)
+    if fb:
+        stats["histories_fb"] += 1
+        for _ in range(rng.choice([1, 2, 2, 3])):
+            h.reg_top("signal")
     for _ in range(rng.choice([1, 2, 2, 3, 4])):
         h.reg_top()
     n = rng.randint(4, 22)
@@ -479,7 +496,47 @@ def exhaustive(prop):
             if shape == "stop2sig" and sig != "none": ops.append("raise 10")
             ops += ["tick", "ready 100 0", "tick", "tick", "destroy", "end"]
             out.append(ops)
-    return out + exhaustive_multi(prop)
+    return out + exhaustive_multi(prop) + exhaustive_fb(prop)
+
+
+def exhaustive_fb(prop):
+    """The self-pipe configuration, small scope (C18 only).
+
+    Watchers: 3 (signal 23, first) and 4 (signal 23, behind it) and 5 (signal 10);
+    {timer due?} x {descriptor ready?} x
+    {arrival: 23 before the iteration / inside the wait / from the timer callback / from watcher 3 itself (re-raise during
+     dispatch) / 10 from watcher 3 (another signal during dispatch) / 23 from watcher 5 (earlier signal's callback), /
+     both before} x {shape: plain, 3 cancels 4, 3 cancels itself, 4 cancels 3, 5 cancels 3};  tick x4, destroy, end.
+    """
+    out = []
+    if prop != "C18":
+        return out
+    for timer, fd, arr, shape in itertools.product(
+            (0, 1), (0, 1), ("pre", "in", "cbt", "self", "other", "from5", "both"),
+            ("plain", "c34", "c33", "c43", "c53")):
+        if arr == "cbt" and not timer: continue
+        ops = ["new " + prop + " fb"]
+        a3, a4, a5 = [], [], []
+        if arr == "self": a3.append("R,23")
+        if arr == "other": a3.append("R,10")
+        if arr == "from5": a5.append("R,23")
+        if shape == "c34": a3.append("C,4")
+        if shape == "c33": a3.append("C,3")
+        if shape == "c43": a4.append("C,3")
+        if shape == "c53": a5.append("C,3")
+        if arr == "cbt": ops.append("beh 0 0 R,23")
+        if a3: ops.append("beh 3 0 " + " ".join(a3))
+        if a4: ops.append("beh 4 0 " + " ".join(a4))
+        if a5: ops.append("beh 5 0 " + " ".join(a5))
+        ops += ["signal 3 23 2", "signal 4 23 6", "signal 5 10 0", "io 2 100 1 6"]
+        if timer: ops.append("timer 0 0 0")
+        if fd: ops.append("ready 100 1")
+        if arr in ("pre", "self", "other", "both"): ops.append("raise 23")
+        if arr in ("from5", "both"): ops.append("raise 10")
+        if arr == "in": ops.append("inpoll 23")
+        ops += ["tick", "ready 100 0", "tick", "tick", "tick", "destroy", "end"]
+        out.append(ops)
+    return out
 
 
 def exhaustive_multi(prop):
@@ -564,6 +621,11 @@ if a.tier == "exhaustive":
              "C18: {timer due} x {later} x {fd ready} x {signal none/before/inside wait/from timer cb/from later cb} x "
              "{errno set by timer cb/later cb/not} x {1 watcher, 2, first cancels second, first cancels itself, "
              "a watcher that calls tickit_stop, a second lower-numbered signal whose watcher calls tickit_stop}")
+    if a.prop == "C18":
+        bound += ("; self-pipe configuration (hooks without signal members): {timer due} x {fd ready} x {signal before / inside the wait / "
+                  "from the timer callback / re-raised by its own first watcher during dispatch / another watched signal raised "
+                  "during dispatch / raised by the callback of an earlier signal / two signals before} x "
+                  "{plain, first cancels second, first cancels itself, second cancels first, other signal's watcher cancels first}")
     bound += ("; several toplevel instances: {observer = first instance / instance 0 rebuilt / a third instance after the first was destroyed} x "
               "{second instance never built / built before / after the signal watch} x {left alone / iterated / destroyed / destroyed and rebuilt} x "
               "{signal before the iteration / inside the wait} x {observer's timer due} x {1, 2 watchers}"
